@@ -113,6 +113,12 @@ func c04exec(c *vt.Ctx, r c04run) {
 			} else {
 				var specs []jrpc2.Spec
 				for j, ch := range strings.TrimPrefix(op, "B:") {
+					if ch == 'z' {
+						// a notification without a method name: nothing the peer could act on, but
+						// a notification all the same - no response slot, no reply expected
+						specs = append(specs, jrpc2.Spec{Method: "", Params: []int{i, j}, Notify: true})
+						continue
+					}
 					specs = append(specs, jrpc2.Spec{Method: "m", Params: []int{i, j}, Notify: ch == 'n'})
 				}
 				rig.GoBatch(tag, ctx, specs)
@@ -442,7 +448,7 @@ func c04cases(e vt.Env, yield func(vt.Case) bool) {
 	if !c05directCases("C04", e, yield) {
 		return
 	}
-	opsets := [][]string{{"C", "C"}, {"C", "B:cnc"}, {"B:cc", "C"}, {"C", "C", "C"}, {"B:ncn"}, {"B:nc", "C"}, {"B:cnc", "B:nc"}, {"C", "BF", "C", "C"}, {"BF", "B:cc", "C"}}
+	opsets := [][]string{{"C", "C"}, {"C", "B:cnc"}, {"B:cc", "C"}, {"C", "C", "C"}, {"B:ncn"}, {"B:nc", "C"}, {"B:cnc", "B:nc"}, {"C", "BF", "C", "C"}, {"BF", "B:cc", "C"}, {"B:czc", "C"}}
 	extras := []string{"", "dup", "mal", "mal2", "strid", "badreq", "unk", "note", "cb", "nonobj"}
 	for oi, ops := range opsets {
 		n := c04slotsOf(ops)
